@@ -669,6 +669,10 @@ def oracle_c09(H, evs, tables, panic, fail):
     if panic:
         fail("client-task-panicked", "a background task or the harness panicked")
     died = next((k for k, d in enumerate(evs) if d["F"]), None)
+    md = getattr(H, "must_die", None)
+    if md is not None and (died is None or died > md):
+        fail("send-error-not-fatal", "the transport write at event %d (%s) failed but the client %s" % (
+            md, H.ev[md][0].split()[0], "kept running: pending calls were never failed" if died is None else "only shut down at event %d" % died))
     for k, d in enumerate(evs):
         if d["F"] in ("PLACEHOLDER", "NOCAUSE"):
             fail("disconnect-cause-missing", "on_disconnect gave %s at event %d" % (d["F"], k))
@@ -1120,3 +1124,75 @@ def c18_cycle_history(rng, reps, kinds=None):
     H.clean = True
     H.cleanup_from = len(H.ev)
     return H
+
+
+def c09_sendfault_histories(rng):
+    """a transport write error on EVERY kind of frame the client writes (call, notification, batch, subscribe, and the
+    unsubscribe request produced by unsubscribe() / drop / a lagging stream closed by the read task / a subscribe whose caller
+    gave up before the answer), with something else pending and a silent receive side: the client must shut down at that event
+    and fail everything pending with the cause (H.must_die = index of the event whose frame fails)"""
+    out = []
+    for idstr in (0, 1):
+        for pre in ("call", "batch", "sub", "call+batch", "none"):
+            for trig in ("unsub", "drop", "lag", "giveup-sub", "call", "batch", "sub", "notify"):
+                H = new_hist(rng, idstr=idstr, qcap=16, bufcap=1, gate=0)
+                for p in pre.split("+"):
+                    {"call": H.op_call, "batch": H.op_batch, "sub": H.op_sub, "none": lambda: None}[p]()
+                H.op_sub()
+                hs = H.h
+                if trig == "giveup-sub":
+                    H.add("giveup %d" % hs, kind="giveup", h=hs)
+                    H.add("failsend", kind="failsend")
+                    accept_sub_h(H, hs)           # the answer to an abandoned subscribe makes the client unsubscribe
+                else:
+                    s = accept_sub_h(H, hs)
+                    H.add("failsend", kind="failsend")
+                    if trig == "unsub":
+                        H.add("unsub %d %d" % (H.newh(), hs), kind="unsub", sh=hs, sid=s["sid"], uid=s["uid"])
+                    elif trig == "drop":
+                        H.add("drop %d" % hs, kind="drop", sh=hs, sid=s["sid"], uid=s["uid"])
+                    elif trig == "lag":
+                        push_group(H, s, [H.marker(0)])
+                        push_group(H, s, [H.marker(0)])       # buffer of 1, nobody polls: the second push closes the stream
+                    else:
+                        {"call": H.op_call, "batch": H.op_batch, "sub": H.op_sub, "notify": H.op_notify}[trig]()
+                H.must_die = len(H.ev) - 1
+                H.dead = True
+                H.op_call()
+                H.add("ondisc" if False else "next %d" % hs, kind="next")
+                H.clean = False
+                out.append(H)
+    return out
+
+
+def c12_mixed_array_histories(rng, nmax=3):
+    """the reply to a batch shares its JSON array with a notification for a subscription whose stream is full (buffer 1, never
+    polled: the read task closes that subscription while handling the array) or still has room; the notification at every
+    position, the responses in rotated order, a single call pending as well.  The batch must complete with every answer."""
+    out = []
+    for idstr in (0, 1):
+        for n in range(1, nmax + 1):
+            for pos in range(n + 1):
+                for rot in range(n):
+                    for fill in (0, 1, 2):
+                        H = new_hist(rng, idstr=idstr, qcap=16, bufcap=1, gate=0)
+                        H.op_sub()
+                        s = accept_sub_h(H, H.h)
+                        if rng.random() < 0.5:
+                            H.op_call()
+                        for _ in range(min(fill, 1)):
+                            push_group(H, s, [H.marker(0)])        # fills the buffer of 1
+                        h = H.newh()
+                        lo = H.next_id
+                        H.next_id += n
+                        H.add("batch %d %s" % (h, " ".join("%s -" % hx("b%d_%d" % (h, j)) for j in range(n))), kind="batch", h=h, lo=lo, n=n)
+                        ids = [lo + (j + rot) % n for j in range(n)]
+                        objs = [H.resp_ok(i) if rng.random() < 0.8 else H.resp_err(i) for i in ids]
+                        notes = [H.notif(s["nm"], s["sid"], H.marker(0)) for _ in range(1 if fill < 2 else 2)]
+                        arr = objs[:pos] + notes + objs[pos:]
+                        items = [dict(what="push", sid=s["sid"], val=o["params"]["result"]) for o in notes]
+                        H.back(J(arr), what="batch-answer", h=h, lo=lo, n=n, mode="perm", objs=objs, items=items)
+                        H.add("next %d" % s["h"], kind="next")
+                        H.clean = False
+                        out.append(H)
+    return out
